@@ -1,5 +1,6 @@
 use std::alloc::{alloc, dealloc, handle_alloc_error, Layout};
 use std::cmp::Ordering;
+use std::collections::HashSet;
 use std::fmt::{Display, Write};
 use std::ptr::drop_in_place;
 use std::string::String as RString;
@@ -539,43 +540,53 @@ impl Array {
 
 impl Display for Object {
     fn fmt(&self, f: &mut std::fmt::Formatter<'_>) -> std::fmt::Result {
-        self.fmt_nested(f, &mut Vec::new())
-    }
-}
+        // The arrays that are being formatted right now (innermost last), each with the position of
+        // its next element. This is a list instead of recursion, because arrays can be nested deeper
+        // than the native stack allows.
+        let mut open: Vec<(Object, usize)> = Vec::new();
+        // The same arrays by address, so that an array that (indirectly) contains itself
+        // is shown as [...] instead of being formatted forever.
+        let mut parents: HashSet<*mut u8> = HashSet::new();
+        let mut next = Some(*self);
 
-impl Object {
-    /// Formats this object. `parents` holds the arrays that are being formatted right now, so that
-    /// an array that (indirectly) contains itself is shown as [...] instead of recursing forever.
-    fn fmt_nested(
-        &self,
-        f: &mut std::fmt::Formatter<'_>,
-        parents: &mut Vec<*mut u8>,
-    ) -> std::fmt::Result {
-        match self.tag() {
-            Type::Null => (),
-            Type::Bool => f.write_str(if self.as_bool() { "ja" } else { "nee" })?,
-            Type::Float => unsafe { f.write_str(&self.as_f64_unchecked().to_string())? },
-            Type::Int => f.write_str(&self.as_int().to_string())?,
-            Type::String => unsafe { f.write_str(self.as_str_unchecked())? },
-            Type::Array => {
-                if parents.contains(&self.as_ptr()) {
-                    return f.write_str("[...]");
-                }
-                parents.push(self.as_ptr());
-                let values = unsafe { self.as_vec_unchecked() };
-                f.write_char('[')?;
-                for (i, obj) in values.iter().enumerate() {
-                    if i > 0 {
-                        f.write_str(", ")?;
+        loop {
+            if let Some(obj) = next.take() {
+                match obj.tag() {
+                    Type::Null => (),
+                    Type::Bool => f.write_str(if obj.as_bool() { "ja" } else { "nee" })?,
+                    Type::Float => unsafe { f.write_str(&obj.as_f64_unchecked().to_string())? },
+                    Type::Int => f.write_str(&obj.as_int().to_string())?,
+                    Type::String => unsafe { f.write_str(obj.as_str_unchecked())? },
+                    Type::Array => {
+                        if parents.insert(obj.as_ptr()) {
+                            f.write_char('[')?;
+                            open.push((obj, 0));
+                        } else {
+                            f.write_str("[...]")?;
+                        }
                     }
-                    obj.fmt_nested(f, parents)?;
+                    Type::Function => f.write_str("functie")?,
                 }
-                f.write_char(']')?;
-                parents.pop();
             }
-            Type::Function => f.write_str("functie")?,
+
+            // Go on with the innermost array that is not finished yet
+            let Some((array, position)) = open.last_mut() else {
+                return Ok(());
+            };
+            // Safety: only arrays are pushed
+            let values = unsafe { array.as_vec_unchecked() };
+            if *position < values.len() {
+                if *position > 0 {
+                    f.write_str(", ")?;
+                }
+                next = Some(values[*position]);
+                *position += 1;
+            } else {
+                f.write_char(']')?;
+                parents.remove(&array.as_ptr());
+                open.pop();
+            }
         }
-        Ok(())
     }
 }
 
